@@ -86,3 +86,42 @@ Definition ic_convert_spec (un : units) (ac : bool) (n : list Z) (s : list K) (e
 Definition sd_spec (h0 h1 h2 x : K) : list K :=
   [x / h0; x / h1; x / h2; x / (h0 * h0); x / (h0 * h1); x / (h0 * h2); x / (h1 * h1); x / (h1 * h2); x / (h2 * h2)].
 End Reg.
+
+(* ---- mode 'bspline': the field is read as cubic B-spline coefficients ------------------------------------ *)
+Section BSplineMode.
+Context {K : fld}.
+(* wf o t: the four interpolation weights of derivative order o at offset t in [0, 1) between control points
+   (cubic_bspline_interpolation_weights; instantiated with the generated gen_w) *)
+Variable wf : nat -> K -> list K.
+
+(* evaluate_cubic_bspline with per-axis derivative orders: tensor product over the 4^D coefficients that start
+   at the multi-index base; ts = offsets per axis; x first *)
+Fixpoint bsev (ords : list nat) (ts : list K) (base : idx) (f : idx -> K) (acc : idx) : K :=
+  match ords, ts, base with
+  | o :: ords', t :: ts', b :: base' =>
+      dot (wf o t) (map (fun m => bsev ords' ts' base' f (acc ++ [(b + m)%Z])) [0; 1; 2; 3]%Z)
+  | _, _, _ => f acc
+  end.
+
+(* spatial_derivatives(mode='bspline') at output point p (stride s per axis: control point p / s, offset
+   (p mod s) / s), divided by spacing^order per axis *)
+Definition bs_base (stride : list Z) (p : idx) : idx := map (fun q => (fst q / snd q)%Z) (combine p stride).
+Definition bs_offs (stride : list Z) (p : idx) : list K :=
+  map (fun q => of_Z (fst q mod snd q)%Z / of_Z (snd q)) (combine p stride).
+Fixpoint fpown (x : K) (n : nat) : K := match n with O => 1 | S n' => x * fpown x n' end.
+Definition bs_denom (sp : list K) (ords : list nat) : K :=
+  fold_right (fun q acc => fpown (fst q) (snd q) * acc) 1 (combine sp ords).
+Definition bs_deriv (stride : list Z) (sp : list K) (ords : list nat) (f : idx -> K) (p : idx) : K :=
+  bsev ords (bs_offs stride p) (bs_base stride p) f [] / bs_denom sp ords.
+
+(* order vector of the derivative along axes d and e *)
+Definition ord2 (D d e : nat) : list nat :=
+  map (fun a => ((if Nat.eqb a d then 1 else 0) + (if Nat.eqb a e then 1 else 0))%nat) (seq 0 D).
+(* bending_loss(mode='bspline') at an output point *)
+Definition bs_bending_pt (D : nat) (stride : list Z) (sp : list K) (u : list (idx -> K)) (p : idx) : K :=
+  sumf (seq 0 D) (fun c => sumf (seq 0 D) (fun d => sumf (seq 0 D) (fun e =>
+    if Nat.ltb e d then 0
+    else (if Nat.eqb d e then 1 else 1 + 1) * sq (bs_deriv stride sp (ord2 D d e) (comp u c) p)))).
+(* output lattice: (n - 3) * stride points per axis *)
+Definition bs_out_shape (sh stride : list Z) : list Z := map (fun q => ((fst q - 3) * snd q)%Z) (combine sh stride).
+End BSplineMode.
